@@ -144,6 +144,15 @@ PROPS["C18"] = {
     "trusted_base": ["fake StreamReader/StreamWriter and fake aiofiles stdin/stdout (tools/comp_conn.py)"],
     "assumptions": ["that every way of ending funnels into close()+unregister is handler control flow: tied by the correspondence, not proved; real sockets are not exercised"],
 }
+PROPS["C03"] = {
+    "suites": [("comp_wire", "gen_cases"), ("comp_codec", "gen_toxml_cases")],
+    "rule": "all 22 message kinds x optional-attribute subsets (thorough: all subsets) x 0,1,2,4 children x attribute and text values over markup characters, both quotes, BMP and astral "
+            "code points, inner whitespace, newlines and tabs (attributes also with surrounding whitespace; label equal to name) through the real to_string/from_string, the re-serialisation, "
+            "and five foreign spellings (compact, indented, single quotes + reversed attributes, explicit empty elements + raw '>', attributes on separate lines + CRLF); random messages; "
+            "distinct by wire view",
+    "trusted_base": ["ElementTree's writer and expat are exercised, not modelled: the element-level model is compared on the elements they produced"],
+    "assumptions": ["carriage return and leading/trailing whitespace of text values are excluded (the property's own exclusions)"],
+}
 PROPS["CLITEST"] = {"suites": [("comp_cli", "gen_c15"), ("comp_cli", "gen_c16")], "rule": "cli bring-up"}
 PROPS["C12TEST"] = {"suites": [("comp_dev", "gen_c12")], "rule": "c12 bring-up"}
 
